@@ -124,7 +124,8 @@ Fixpoint timely (np : Z) (out : option Z) (evs : list (ev * Z)) : bool :=
       | EPing, None => (tau =? np) && timely (np + ping_period) (Some tau) r
       | EPing, Some _ => false
       | EPong, Some p => (p <=? tau) && (tau <? p + slack) && timely np None r
-      | EPong, None => (tau <=? np) && timely np None r      (* unsolicited pong: renews too *)
+      | EPong, None => (np - ping_period <=? tau) && (tau <=? np) && timely np None r
+          (* unsolicited pong, not earlier than the previous ping: renews too *)
       | _, None => (tau <=? np) && timely np None r
       | _, Some p => (tau <? p + slack) && timely np out r
       end
